@@ -19,4 +19,5 @@ Extraction "models_selfcal.ml"
   QI qre qim qq Qnum Qden this
   replay_run Obs outcome_tag e_best e_mult e_lambda e_converged
   n_calc_weights n_simple_index n_auto_index
-  q_trl_solve M2 qi_nrm qi_sub.
+  q_trl_solve M2 qi_nrm qi_sub
+  dof.
